@@ -110,7 +110,7 @@ pub enum Op {
     /// with one later-allocated node inserted in the middle
     Grow { under: Sel, n: u32, shape: u8 },
     Clear,
-    Reserve { k: u16 },
+    Reserve { k: u32 },
     /// Serde round trip (only meaningful in the `deser` build; no-op elsewhere).
     Roundtrip,
 }
